@@ -84,6 +84,7 @@ type runOut struct {
 	Hash       string          `json:"hash"`
 	Reason     string          `json:"reason"`
 	Steps      int             `json:"steps"`
+	Procs      int             `json:"gomaxprocs"`
 	Switches   int             `json:"switches"`
 	Tool       string          `json:"tool_error"`
 }
@@ -418,6 +419,11 @@ func cmdRun(args []string) {
 				env := map[string]string{"SIM_MODE": "search", "SIM_PROP": *prop, "SIM_TIER": *tier, "SIM_SEED": fmt.Sprint(seed),
 					"SIM_WORKER": fmt.Sprint(w), "SIM_WORKERS": fmt.Sprint(*workers), "SIM_RUNS": fmt.Sprint(runs), "SIM_WALL_S": fmt.Sprint(left),
 					"SIM_FROM": fmt.Sprint(from)}
+				if w%4 == 3 {
+					// environment diversity: one worker process in four runs on a single P (simulated runs are identical
+					// there - see the self-test - unless the code under test consults runtime.GOMAXPROCS)
+					env["GOMAXPROCS"] = "1"
+				}
 				r, err := worker(bin, scratch, env, time.Duration(left+900)*time.Second, fmt.Sprintf("w%d_%d", w, chunk))
 				if err != nil {
 					results[w] = wres{nil, err}
@@ -569,7 +575,13 @@ func cmdRun(args []string) {
 		}
 		path := filepath.Join(outDir(), "replays", fmt.Sprintf("%s-%d-%s.json", *prop, best.Seed, shortHash(k)))
 		rep := map[string]interface{}{"property": *prop, "tier": *tier, "seed": best.Seed, "clause": ci.v.Clause, "fingerprint": ci.v.Fingerprint,
-			"detail": ci.v.Detail, "tree": treeID(), "scenario_tape": best.ScenTape, "schedule_tape": best.SchedTape, "minimised": false}
+			"detail": ci.v.Detail, "tree": treeID(), "scenario_tape": best.ScenTape, "schedule_tape": best.SchedTape, "minimised": false, "gomaxprocs": best.Procs}
+		procsEnv := func(m map[string]string) map[string]string {
+			if best.Procs > 0 {
+				m["GOMAXPROCS"] = fmt.Sprint(best.Procs)
+			}
+			return m
+		}
 		if shrunk < 6 {
 			shrunk++
 			in := filepath.Join(scratch, "shrink-in.json")
@@ -577,7 +589,7 @@ func cmdRun(args []string) {
 			// a few attempts: behaviour that depends on Go's (unseedable) map iteration order
 			// may not reproduce on every execution
 			for attempt := 0; attempt < 3; attempt++ {
-				recs, err := worker(bin, scratch, map[string]string{"SIM_MODE": "shrink", "SIM_PROP": *prop, "SIM_TIER": *tier, "SIM_IN": in, "SIM_WALL_S": "45"}, 120*time.Second, "shrink")
+				recs, err := worker(bin, scratch, procsEnv(map[string]string{"SIM_MODE": "shrink", "SIM_PROP": *prop, "SIM_TIER": *tier, "SIM_IN": in, "SIM_WALL_S": "45"}), 120*time.Second, "shrink")
 				if err != nil || len(recs) == 0 {
 					break
 				}
@@ -601,7 +613,7 @@ func cmdRun(args []string) {
 		for attempts < 4 && !repro {
 			attempts++
 			writeJSON(in, rep)
-			recs, err := worker(bin, scratch, map[string]string{"SIM_MODE": "replay", "SIM_PROP": *prop, "SIM_TIER": *tier, "SIM_IN": in, "SIM_TRACE": "1"}, 120*time.Second, "replay")
+			recs, err := worker(bin, scratch, procsEnv(map[string]string{"SIM_MODE": "replay", "SIM_PROP": *prop, "SIM_TIER": *tier, "SIM_IN": in, "SIM_TRACE": "1"}), 120*time.Second, "replay")
 			if err != nil || len(recs) == 0 {
 				os.RemoveAll(scratch)
 				die(2, "replay worker failed: %v", err)
@@ -722,7 +734,7 @@ func cmdRun(args []string) {
 			"determinism_selftest_seeds_x_processes": fmt.Sprintf("%d x 3 (GOMAXPROCS 1/4/16), identical event-log hashes", detSeeds),
 			"code_reach": map[string]interface{}{"instrumented_statements_in_scope": sitesTotal, "statements_executed_by_simulated_threads": sitesHit,
 				"functions_in_scope": len(fnHit), "functions_never_reached": neverReached, "statements_never_executed": stmtsNever},
-			"worker_processes": *workers, "worker_process_restarts_for_memory": len(sigFiles) - *workers, "build_s": buildS, "search_s": searchS, "tree": treeID(),
+			"worker_processes": *workers, "worker_process_gomaxprocs": "4 (three workers in four), 1 (one in four)", "worker_process_restarts_for_memory": len(sigFiles) - *workers, "build_s": buildS, "search_s": searchS, "tree": treeID(),
 		},
 	}
 	writeJSON(filepath.Join(outDir(), "evidence", *prop+".json"), ev)
@@ -767,6 +779,7 @@ func cmdReplay(args []string) {
 		Clause      string `json:"clause"`
 		Fingerprint string `json:"fingerprint"`
 		Hash        string `json:"hash"`
+		Procs       int    `json:"gomaxprocs"`
 	}
 	if err := json.Unmarshal(b, &rep); err != nil {
 		die(2, "%v", err)
@@ -775,7 +788,11 @@ func cmdReplay(args []string) {
 	defer os.RemoveAll(scratch)
 	bin := build(scratch, false)
 	abs, _ := filepath.Abs(args[0])
-	recs, err := worker(bin, scratch, map[string]string{"SIM_MODE": "replay", "SIM_PROP": rep.Property, "SIM_TIER": rep.Tier, "SIM_IN": abs, "SIM_TRACE": "1"}, 300*time.Second, "replay")
+	renv := map[string]string{"SIM_MODE": "replay", "SIM_PROP": rep.Property, "SIM_TIER": rep.Tier, "SIM_IN": abs, "SIM_TRACE": "1"}
+	if rep.Procs > 0 {
+		renv["GOMAXPROCS"] = fmt.Sprint(rep.Procs)
+	}
+	recs, err := worker(bin, scratch, renv, 300*time.Second, "replay")
 	if err != nil || len(recs) == 0 {
 		os.RemoveAll(scratch)
 		die(2, "replay failed: %v", err)
